@@ -57,6 +57,10 @@ func (ex *Exec) vrtCall(fn *ssa.Function, args []Value, pos token.Pos) Value {
 		return ex.newSym(cstr(args[0]), 64, true, -1<<63, 1<<63-1)
 	case "Choice":
 		name := ex.uniq(cstr(args[0]))
+		if fv, ok := ex.w.cfg.Params["fix."+name]; ok {
+			ex.choices[name] = fv
+			return tb.Const(64, uint64(fv))
+		}
 		v := ex.choice(cint(args[1]), cint(args[2]))
 		ex.choices[name] = v
 		return tb.Const(64, uint64(v))
